@@ -28,11 +28,13 @@ Fail(c) == PrintT(<<"FAIL", tid, c, l>>)
 Close(x, y) == Abs(x - y) <= (Abs(y) \div 10000) + 50
 \* the action of step l was decided BEFORE the state `clean` (which includes margin[l]) was updated: use the flag of the steps before l
 CleanBefore(k) == \A t \in 1..(k - 1) : R.solo.margin[t] > TieMargin
-M_Action == (l > 0 /\ CleanBefore(l) /\ R.solo.margin[l] > TieMargin /\
+\* records of best-of-k decoding (multi-start greedy with select_best) compare the reported REWARD only: two rollouts of an
+\* instance may have exactly the same reward (a tour and its reverse), so which one is returned is not determined
+M_Action == (R.cmp_actions /\ l > 0 /\ CleanBefore(l) /\ R.solo.margin[l] > TieMargin /\
               \E k \in DOMAIN R.rows : R.rows[k].actions[l] # R.solo.actions[l]) => Fail("greedy-action-differs")
-M_Pad    == (l = T /\ clean /\ \E k \in DOMAIN R.rows : \E t \in (T + 1)..Len(R.rows[k].actions) :
+M_Pad    == (R.cmp_actions /\ l = T /\ clean /\ \E k \in DOMAIN R.rows : \E t \in (T + 1)..Len(R.rows[k].actions) :
               R.rows[k].actions[t] # R.pad) => Fail("not-padding-after-finish")
 M_Reward == (l = T /\ clean /\ \E k \in DOMAIN R.rows : ~Close(R.rows[k].reward, R.solo.reward)) => Fail("reward-differs")
-M_LL     == (l = T /\ clean /\ \E k \in DOMAIN R.rows : ~Close(R.rows[k].ll, R.solo.ll)) => Fail("log-likelihood-differs")
+M_LL     == (R.cmp_actions /\ l = T /\ clean /\ \E k \in DOMAIN R.rows : ~Close(R.rows[k].ll, R.solo.ll)) => Fail("log-likelihood-differs")
 End == (l = T) => PrintT(<<"END", tid, clean>>)
 =============================================================================
